@@ -29,12 +29,12 @@ type Replay struct {
 }
 
 type Result struct {
-	Outcome string  `json:"outcome"` // ok | assert | panic | assume | mismatch
-	Label   string  `json:"label"`
-	Case    string  `json:"case"`
-	Msg     string  `json:"msg"`
-	Stack   string  `json:"stack,omitempty"`
-	Obs     []Value `json:"observations"`
+	Outcome string   `json:"outcome"` // ok | assert | panic | assume | mismatch
+	Label   string   `json:"label"`
+	Case    string   `json:"case"`
+	Msg     string   `json:"msg"`
+	Stack   string   `json:"stack,omitempty"`
+	Obs     []Value  `json:"observations"`
 	Covers  []string `json:"covers"`
 }
 
@@ -43,9 +43,9 @@ type assumeFailure struct{}
 type mismatch struct{ msg string }
 
 var cur struct {
-	rp   *Replay
-	idx  int
-	res  *Result
+	rp  *Replay
+	idx int
+	res *Result
 }
 
 func next(name, kind string) string {
@@ -185,9 +185,10 @@ func Observe(label string, v any) {
 // Atomic runs fn without scheduling points (engine); plain call natively.
 func Atomic(fn func()) { fn() }
 
-func Yield()               {}
+func Yield() {}
+
 // Quiesce natively approximates "everything else ran until it blocked" by a short sleep.
-func Quiesce() { time.Sleep(3 * time.Millisecond) }
+func Quiesce()             { time.Sleep(3 * time.Millisecond) }
 func SetUnwind(n int)      {}
 func SetPreemptions(n int) {}
 
